@@ -29,6 +29,9 @@ class WrapDict(OrderedDict):
         return ([k for k in self._other.keys() if k not in self._mine] +
                 list(self._mine.keys()))
 
+    def values(self):
+        return [v for k, v in self.items()]
+
     def __len__(self):
         return len(self._mine) + len(self._other)
 
